@@ -1,4 +1,5 @@
 import sys
+import threading
 import os
 
 from unittest.mock import patch
@@ -62,14 +63,30 @@ class SandboxCoverageTracer(SandboxBasicTracer):
     def as_filename(self, filename, code):
         # A student file that imports another student file re-enters this
         # tracer: the measurement that is running stays about the outer file
-        if getattr(self, '_depth', 0):
+        if self._is_nested():
             return self
         return super().as_filename(filename, code)
 
+    def _is_nested(self):
+        """ Whether the measurement that is running belongs to this thread
+        (and not to a thread that was abandoned after a timeout). """
+        return (getattr(self, '_depth', 0) > 0
+                and self._owner == threading.get_ident())
+
     def __enter__(self):
-        self._depth = getattr(self, '_depth', 0) + 1
-        if self._depth > 1:
+        if self._is_nested():
+            self._depth += 1
             return
+        if getattr(self, '_depth', 0):
+            # The execution being measured was abandoned (its thread timed
+            # out and may never unwind): its measurement ends here
+            try:
+                self.coverage.stop()
+            except Exception:
+                pass
+            self.p.stop()
+        self._depth = 1
+        self._owner = threading.get_ident()
         # Force coverage to accept the code
         self.original = coverage.python.get_python_source
 
@@ -89,6 +106,10 @@ class SandboxCoverageTracer(SandboxBasicTracer):
         self.coverage.start()
 
     def __exit__(self, exc_type, exc_val, traceback):
+        if self._owner != threading.get_ident():
+            # An abandoned thread unwinding at last: a later execution has
+            # taken the measurement over
+            return
         self._depth -= 1
         if self._depth:
             return
